@@ -163,16 +163,20 @@ def print_assumptions(propfile):
 
 # ----------------------------------------------------------------------------- OCaml / Go
 
-def build_ocaml(oid):
-    """(Re)extract and compile ocaml/<oid>/drv when older than the Coq objects it comes from."""
+def build_ocaml(oid, vo_targets=None):
+    """(Re)extract and compile ocaml/<oid>/drv when older than the Coq objects it is extracted from
+    (the property's own .vo targets: make rebuilds those whenever anything in their closure changes)."""
     d = os.path.join(VERIF, "ocaml", oid)
     drv = os.path.join(d, "drv")
     with Lock("ocaml-" + oid):
         newest = 0
-        for root, _, files in os.walk(COQ):
-            for fn in files:
-                if fn.endswith(".vo"):
-                    newest = max(newest, os.path.getmtime(os.path.join(root, fn)))
+        vos = [os.path.join(COQ, t) for t in (vo_targets or [])]
+        if not vos:
+            for root, _, files in os.walk(COQ):
+                vos += [os.path.join(root, fn) for fn in files if fn.endswith(".vo")]
+        for f in vos:
+            if os.path.exists(f):
+                newest = max(newest, os.path.getmtime(f))
         for fn in ("driver.ml", "extract.v"):
             newest = max(newest, os.path.getmtime(os.path.join(d, fn)))
         for fn in os.listdir(os.path.join(VERIF, "ocaml", "common")):
